@@ -17,7 +17,7 @@ ASSUMPTIONS = ['component doubles raise only the package\'s own exception classe
                'text defects are limited to the lexical / syntactic / semantic kinds the property names',
                'faults are never injected inside compiler.py itself']
 
-SINGLE_FAULTS = [('source', f) for f in orch.TEXT_FAULTS + ('ghost', 'ghostdefval', 'absent')] + \
+SINGLE_FAULTS = [('source', f) for f in orch.TEXT_FAULTS + orch.CODEGEN_FAULTS + ('absent',)] + \
     [('source_error', k) for k in ('reader', 'generic')] + \
     [('parser', 'parser'), ('parser', 'lexer'), ('codegen', 'codegen'), ('codegen', 'semantic'),
      ('writer', 'error'), ('searcher', 'error'), ('none', None)]
@@ -116,7 +116,7 @@ def build_random(rng, tier):
             if ns > 1 and r < 0.35:
                 scn['sources'][si][m] = 'absent'
             elif r < 0.5:
-                stage, k = rng.choice(SINGLE_FAULTS[:13])
+                stage, k = rng.choice(SINGLE_FAULTS[:15])
                 apply_fault(scn, m, stage, k, si)
     for m in mods:
         r = rng.random()
@@ -160,6 +160,20 @@ def build_partial_multi(rng):
     scn['extra_variant'] = {'EE-MIB': rng.choice(['dupsym', 'unresolved'])}
     scn['options'] = {'ignoreErrors': True} if rng.random() < 0.7 else {}
     return scn, 'partial_multi_file'
+
+
+def build_twice_held(rng):
+    """stress: a module's own file is broken while a healthy copy of the module sits in another
+    module's file (second position); both are requested"""
+    mods = ['XX-MIB', 'YY-MIB']
+    g = {'YY-MIB': ['XX-MIB']} if rng.random() < 0.5 else {}
+    req = ['XX-MIB', 'YY-MIB'] if rng.random() < 0.7 else ['YY-MIB', 'XX-MIB']
+    scn = orch.new_scenario(mods, g, req)
+    scn['files']['YY-MIB'] = ['YY-MIB', 'XX-MIB']
+    scn['sources'][0].pop('XX-MIB')
+    scn['own_files'] = {'XX-MIB': rng.choice(['synerr', 'lexerr', 'truncated', 'unresolved', 'dupsym'])}
+    scn['options'] = {'ignoreErrors': True} if rng.random() < 0.7 else {}
+    return scn, 'twice_held'
 
 
 def case_failpoints(idx, rng, tier, res):
@@ -240,6 +254,18 @@ def run_case(idx, rng, tier, res):
     plan(tier, 0)
     if idx % 13 == 12:
         return case_failpoints(idx, rng, tier, res)
+    if idx % 97 == 95:
+        scn, gname = build_twice_held(rng)
+        run = orch.execute(scn)
+
+        def Vt(monitor, detail, **features):
+            if monitor == 'I7_module_dropped':
+                return
+            res.violation(monitor, detail, replay=scn, twice_held=True, **features)
+        orch.check_accounting(scn, run, Vt, compare_model=False)
+        res.count('stress_twice_held')
+        res.sig = harness.stable_hash(scn)
+        return
     if idx % 97 == 96:
         scn, gname = build_partial_multi(rng)
         run = orch.execute(scn)
